@@ -77,6 +77,11 @@ func c12Gen(t *sim.Tape) []c12Call {
 			o.P, o.H = p(), t.Int(3)
 		case "WriteFile":
 			o.P, o.Data, o.Perm = p(), uniq, 0o644
+
+			if t.Chance(250) {
+				// larger than the buffers the composites start with (512 bytes in ReadFile, 32 KiB in the copy helpers).
+				o.Data = uniq + strings.Repeat("x", []int{600, 40000}[t.Int(2)])
+			}
 		case "Truncate":
 			o.P, o.Size = p(), int64(t.Int(5))
 		case "Mkdir", "MkdirAll", "Chmod":
@@ -255,7 +260,13 @@ func c12Exec(kind string, cfg *concCfg, calls []c12Call, plan c12Plan) c12Result
 		}
 
 		if v != sim.VOK {
-			return r // C07's verdict
+			// the call does not return (or panics) under this plan: C07's verdict, reported from where it is met.
+			r.violation = &sim.Violation{
+				Prop: "C07", Class: v.String(), Sig: "failfs/" + kind + " " + v.String() + " in " + c.Op.K + " under an injected failure of " + plan.Fn.String(),
+				Msg: fmt.Sprintf("plan [%s], call %d env%d:%s: %s %s", plan, i, c.Env, c.Op, v, msg),
+			}
+
+			return r
 		}
 
 		if plan.Kind == "record" && len(r.invoked) == consultedBefore && op.K != "FName" && op.K != "Glob" &&
